@@ -1,4 +1,4 @@
-CONSTANTS MaxPkgs = 2 NameIdx = {1, 2, 3} Palette = 3 MaxMods = 2 TestDirs = FALSE NBases = 1 NSchemes = 1
+CONSTANTS MaxPkgs = 2 NameIdx = {1, 3} Palette = 2 MaxMods = 2 TestDirs = FALSE NBases = 1 NSchemes = 1
           Entries = {"version", "path", "none"} Places = {"packages", "sibling", "nested"} Sim = FALSE
 SPECIFICATION Spec
 INVARIANTS TypeOK RootsDistinct ExternalIsPlace RootOfIsInnermost ModuleNameInjective ResolveIsFunction ResolveIsVisible ImportsAcyclic DepsShape
